@@ -494,6 +494,48 @@ Proof.
       * destruct (chomp e (t :: ts1)) as [s|] eqn:C; [|discriminate]. cbn [bind] in H. injection H as <-. cbn [snd]. apply chomp_cnt in C. exact C.
       * destruct (parse_prec n POr (t :: ts1)) as [r|] eqn:E; [|discriminate]. cbn [bind] in H. apply IHp in E. apply IHe in H. destruct (snd r) as [|c s']; [cbn [cnt] in *; lia|]. destruct c; cbn [cnt cntt] in *; lia.
 Qed.
+(* the tree is no larger than the token list: every node is paid for by a token of its own *)
+Fixpoint nodes (e:expr) : nat :=
+  match e with ELit _ | EVar _ => 1 | EUn _ r => S (nodes r) | EBin _ l r => S (nodes l + nodes r)
+  | EArr es => S ((fix go (l:list expr) : nat := match l with [] => 0 | x :: t => nodes x + go t end) es)
+  | ECall _ ps => S ((fix go (l:list expr) : nat := match l with [] => 0 | x :: t => nodes x + go t end) ps) end.
+Fixpoint nodes_l (l:list expr) : nat := match l with [] => 0 | x :: t => nodes x + nodes_l t end.
+Lemma nodes_fix es : (fix go (l:list expr) : nat := match l with [] => 0 | x :: t => nodes x + go t end) es = nodes_l es.
+Proof. induction es as [|x t IH]; [reflexivity|]. cbn [nodes_l]. rewrite <- IH. reflexivity. Qed.
+Lemma nodes_arr es : nodes (EArr es) = S (nodes_l es). Proof. cbn [nodes]. rewrite nodes_fix. reflexivity. Qed.
+Lemma nodes_call g ps : nodes (ECall g ps) = S (nodes_l ps). Proof. cbn [nodes]. rewrite nodes_fix. reflexivity. Qed.
+Lemma nodes_l_app a b : nodes_l (a ++ b) = nodes_l a + nodes_l b. Proof. induction a as [|x t IH]; [reflexivity|]. cbn [app nodes_l]. rewrite IH. lia. Qed.
+Lemma nodes_l_rev l : nodes_l (rev l) = nodes_l l. Proof. induction l as [|x t IH]; [reflexivity|]. cbn [rev]. rewrite nodes_l_app, IH. cbn [nodes_l]. lia. Qed.
+Lemma comma_len (s:list token) : length (match s with Comma :: s' => s' | s' => s' end) <= length s.
+Proof. destruct s as [|c s']; [cbn; lia|]. destruct c; cbn; lia. Qed.
+Lemma nodes_bound : forall n,
+  (forall p ts x, parse_prec n p ts = Ok x -> nodes (fst x) + length (snd x) <= length ts) /\
+  (forall p l ts x, loop n p l ts = Ok x -> nodes (fst x) + length (snd x) <= nodes l + length ts) /\
+  (forall e ts acc x, elist n e ts acc = Ok x -> nodes_l (fst x) + length (snd x) <= nodes_l acc + length ts).
+Proof.
+  induction n as [|n (IHp & IHl & IHe)].
+  - repeat split; intros; cbn in *; discriminate.
+  - repeat split.
+    + intros p ts x H. cbn [parse_prec] in H. destruct ts as [|t ts1]; [discriminate|].
+      match type of H with bind ?pr _ = _ => destruct pr as [pr0|] eqn:E; [|discriminate] end. cbn [bind] in H. apply IHl in H.
+      assert (nodes (fst pr0) + length (snd pr0) <= S (length ts1)).
+      { destruct t; try discriminate.
+        - destruct ts1 as [|t2 ts2]; [discriminate|]. destruct (parse_prec n POr (t2 :: ts2)) as [r|] eqn:E1; cbn [bind] in E; [|discriminate].
+          destruct (chomp RParen (snd r)) as [s2|] eqn:C; [|discriminate]. cbn [bind] in E. injection E as <-. cbn [fst snd]. apply IHp in E1. apply chomp_len in C. lia.
+        - destruct (elist n RBracket ts1 []) as [r|] eqn:E1; cbn [bind] in E; [|discriminate]. injection E as <-. cbn [fst snd]. rewrite nodes_arr. apply IHe in E1. cbn [nodes_l] in E1. lia.
+        - destruct b; try discriminate. destruct (parse_prec n PUnary ts1) as [r|] eqn:E1; cbn [bind] in E; [|discriminate]. injection E as <-. cbn [fst snd nodes]. apply IHp in E1. lia.
+        - destruct (parse_prec n PUnary ts1) as [r|] eqn:E1; cbn [bind] in E; [|discriminate]. injection E as <-. cbn [fst snd nodes]. apply IHp in E1. lia.
+        - injection E as <-. cbn [fst snd nodes]. lia.
+        - injection E as <-. cbn [fst snd nodes]. lia. }
+      cbn [length]. lia.
+    + intros p l ts x H. cbn [loop] in H. destruct ts as [|t ts1]; [injection H as <-; cbn [fst snd]; lia|].
+      destruct (ple p (tprec t)); [|injection H as <-; cbn [fst snd]; lia]. destruct t; try discriminate.
+      * destruct l; try discriminate. destruct (elist n RParen ts1 []) as [r|] eqn:E; [|discriminate]. cbn [bind] in H. apply IHe in E. apply IHl in H. rewrite nodes_call in H. cbn [nodes_l nodes length] in *. lia.
+      * destruct (parse_prec n (pnext (bprec b)) ts1) as [r|] eqn:E; [|discriminate]. cbn [bind] in H. apply IHp in E. apply IHl in H. cbn [nodes length] in *. lia.
+    + intros e ts acc x H. cbn [elist] in H. destruct ts as [|t ts1]; [discriminate|]. destruct (is_end e t).
+      * destruct (chomp e (t :: ts1)) as [s|] eqn:C; [|discriminate]. cbn [bind] in H. injection H as <-. cbn [fst snd]. rewrite nodes_l_rev. apply chomp_len in C. lia.
+      * destruct (parse_prec n POr (t :: ts1)) as [r|] eqn:E; [|discriminate]. cbn [bind] in H. apply IHp in E. apply IHe in H. cbn [nodes_l] in H. destruct (snd r) as [|c s']; [cbn [length] in *; lia|]. destruct c; cbn [length] in *; lia.
+Qed.
 End Pratt.
 Arguments LParen {LitT IdT}. Arguments RParen {LitT IdT}. Arguments LBracket {LitT IdT}. Arguments RBracket {LitT IdT}. Arguments Comma {LitT IdT}.
 Arguments TBin {LitT IdT}. Arguments TNot {LitT IdT}. Arguments TLit {LitT IdT}. Arguments TId {LitT IdT}.
